@@ -12,6 +12,13 @@ def vMat (s : String) : List (List Recurrence.V) :=
 def pairs (s : String) : List (Rat × Rat) :=
   (ratMat s).filterMap fun r => match r with | [a, b] => some (a, b) | _ => none
 def zeros (n : Nat) : List Nat := List.replicate n 0
+/-- a double: `nan`, `inf`, `-inf` or its exact rational value -/
+def x? (s : String) : X :=
+  if s == "nan" then .nan else if s == "inf" then .pinf else if s == "-inf" then .ninf
+  else match rat? s with | some q => .fin q | none => .nan
+def xMat (s : String) : List (List X) := (splitTok s ";").map fun r => (splitTok r ",").map x?
+/-- the rounding of the request: `id` (exact) or binary64 round-to-nearest-even -/
+def rndOf (s : String) : Rat → Rat := if s == "b64" then rnd64 else id
 
 def answer (toks : List String) : String :=
   match toks with
@@ -28,17 +35,34 @@ def answer (toks : List String) : String :=
       showNats (StructC08._diagline_dist_missingvalues n.toNat! (zeros n.toNat!) (accR (boolMat r))
         (accM (bools m)))
   | ["vertline_seq", n, dim, e, eps] =>
-      showNats (StructC08._vertline_dist_sequential n.toNat! (zeros n.toNat!) (accE (vMat e))
+      showNats (StructC08._vertline_dist_sequential vOps n.toNat! (zeros n.toNat!) (accE (vMat e))
         (v? eps) dim.toNat!)
   | ["diagline_seq", n, dim, e, eps] =>
-      showNats (StructC08._diagline_dist_sequential n.toNat! (zeros n.toNat!) (accE (vMat e))
+      showNats (StructC08._diagline_dist_sequential vOps n.toNat! (zeros n.toNat!) (accE (vMat e))
         (v? eps) dim.toNat!)
   | ["vertline_seq_mv", n, dim, e, eps, m] =>
-      showNats (StructC08._vertline_dist_sequential_missingvalues n.toNat! (zeros n.toNat!)
+      showNats (StructC08._vertline_dist_sequential_missingvalues vOps n.toNat! (zeros n.toNat!)
         (accE (vMat e)) (v? eps) dim.toNat! (accM (bools m)))
   | ["diagline_seq_mv", n, dim, e, eps, m] =>
-      showNats (StructC08._diagline_dist_sequential_missingvalues n.toNat! (zeros n.toNat!)
+      showNats (StructC08._diagline_dist_sequential_missingvalues vOps n.toNat! (zeros n.toNat!)
         (accE (vMat e)) (v? eps) dim.toNat! (accM (bools m)))
+  -- round 4: the same generated kernels on doubles (inf, nan, rounded differences)
+  | ["xvertline_seq", rnd, n, dim, e, eps] =>
+      showNats (StructC08._vertline_dist_sequential (xOps (rndOf rnd)) n.toNat! (zeros n.toNat!)
+        (accX (xMat e)) (x? eps) dim.toNat!)
+  | ["xdiagline_seq", rnd, n, dim, e, eps] =>
+      showNats (StructC08._diagline_dist_sequential (xOps (rndOf rnd)) n.toNat! (zeros n.toNat!)
+        (accX (xMat e)) (x? eps) dim.toNat!)
+  | ["xvertline_seq_mv", rnd, n, dim, e, eps, m] =>
+      showNats (StructC08._vertline_dist_sequential_missingvalues (xOps (rndOf rnd)) n.toNat!
+        (zeros n.toNat!) (accX (xMat e)) (x? eps) dim.toNat! (accM (bools m)))
+  | ["xdiagline_seq_mv", rnd, n, dim, e, eps, m] =>
+      showNats (StructC08._diagline_dist_sequential_missingvalues (xOps (rndOf rnd)) n.toNat!
+        (zeros n.toNat!) (accX (xMat e)) (x? eps) dim.toNat! (accM (bools m)))
+  -- the stored matrix of `set_fixed_threshold` in double arithmetic + the NaN mask
+  | ["xmatrix", rnd, dim, mv, e, eps] =>
+      let emb := xMat e
+      s!"{showBoolMat (fixedThresholdX (rndOf rnd) emb (x? eps) dim.toNat! (mv == "1"))} {showBools (missingMaskX emb)}"
   -- the hand model (round 1), kept executable
   | ["hand", "vertline", n, r] => showNats (LineDist.vertline (boolMat r) n.toNat!)
   | ["hand", "whitevertline", n, r] => showNats (LineDist.whiteVertline (boolMat r) n.toNat!)
@@ -47,6 +71,7 @@ def answer (toks : List String) : String :=
       showNats (LineDist.vertlineMV (boolMat r) (bools m) n.toNat!)
   | ["hand", "diagline_mv", n, r, m] =>
       showNats (LineDist.diaglineMV (boolMat r) (bools m) n.toNat!)
+  | ["diagdist", n, r] => showNats (LineDist.diaglineDist (boolMat r) n.toNat!)
   | ["scalars", lmin, h] =>
       let s := LineDist.scalars lmin.toNat! (nats h)
       s!"{s.ratioNum} {s.ratioDen} {s.avgDen} {s.maxLen} {showNats s.weights}"
